@@ -42,6 +42,18 @@ CLAIMS = {
     "Row allocations are assumed to request >= 1 row (condim in {1,3,4,6}).",
     "design_ref": "DESIGN.md 3 (C16), 9.1",
   },
+  "C38": {
+    "text": "island._compact_dofs is verified against a thread contract with a quantified loop invariant over both map arrays (classic "
+    "loop rule; ghost prefix sum of awake DOFs and ghost tree offsets; initiation/consecution discharged by goal-directed quantifier "
+    "instantiation): dof_cdof and cdof_dof are mutually inverse on [0, ncdof), -1 elsewhere, DOFs of trees that are not awake are "
+    "unmapped, awake DOFs are mapped whenever nothing overflowed, ncdof = min(awake DOFs, nvmax) (NVMAX bit: C16). Host level "
+    "(island.update_active_dofs): the reset launch establishes that contract's precondition for every world, through the real launch "
+    "dims. Gather/scatter kernels of the compacted solve: an unmapped (frozen) DOF gets exactly 0 in qacc, qacc_smooth and "
+    "qfrc_constraint, mapped entries are exact copies through the maps, and the scatters cover all nv DOFs of the Data fields.",
+    "note": _BASE + "MODEL_WF.tree_dofs (tree DOF ranges partition [0,nv), monotone offsets) assumed and audited. Numerical equality "
+    "of the compacted and the full solve, and identity of the maps when all trees are awake, are not claimed.",
+    "design_ref": "DESIGN.md 3 (C38), 9.4",
+  },
   "C39": {
     "text": "support.contact_force (host function + kernel + the wp.funcs it inlines, bound through the launch site) is proved equal, "
     "component by component and exactly over the reals, to the documented mj_contactForce/mju_decodePyramid spec for both cones, "
